@@ -153,8 +153,34 @@ func checkC17(c *run.Ctx) {
 			}
 		})
 	})
+	// Phase 3: one Plugin object whose Source is rewritten between canonicalisations (what env and matrix
+	// interpolation do to a parsed plugin): the result follows the current source, not an earlier one.
+	c.Phase("reused", func() {
+		c.Parallel("reused", c.N(20000, 400000), func(i int, r *rand.Rand) {
+			id := run.CaseID("reused", i)
+			p := &pipeline.Plugin{Config: map[string]any{"k": "v"}}
+			for k, m := 0, 2+r.IntN(4); k < m; k++ {
+				src, want, form := gen.PluginSource(r)
+				p.Source = src
+				if k > 0 && r.IntN(3) == 0 {
+					// marshalled first (the key is the canonical source), then asked directly
+					if jk, yk, err := c17MarshalKeys(p); err != nil || jk != want || yk != want {
+						c.Violation(id, map[string]any{"what": fmt.Sprintf("plugin object with its source rewritten %d times: marshalled key json=%q yaml=%q err=%v, rule model (%s) says %q for the current source %q", k, jk, yk, err, form, want, src)})
+						return
+					}
+				}
+				got := p.FullSource()
+				c.Eval(1)
+				if got != want {
+					c.Violation(id, map[string]any{"what": fmt.Sprintf("plugin object with its source rewritten %d times: FullSource() = %q, rule model (%s) says %q for the current source %q", k, got, form, want, src)})
+					return
+				}
+			}
+			c.Count("plugin_objects_reused_across_sources", 1)
+		})
+	})
 	c.Finish("exploration",
-		"phase 1: sources generated from the documented forms (name, org/name, each with optional git-legal ref; POSIX/Windows/relative paths; scheme URLs; scp-style; drive letters; three or more segments; already canonical) with the expected canonical source known by construction; idempotence and the key of the JSON and YAML marshalling are checked too; phase 2: every string up to length 5 (quick) / 6 (thorough) over the alphabet {a,1,/,#,.,-,:,\\,@,_} for idempotence and marshalled key. distinct_nontrivial counts distinct (form, has ref, segment count) classes seen in a 1/64 sample",
+		"phase 3 rewrites the Source of one Plugin object 2-5 times and canonicalises (directly and through both marshallers) after each rewrite; phase 1: sources generated from the documented forms (name, org/name, each with optional git-legal ref; POSIX/Windows/relative paths; scheme URLs; scp-style; drive letters; three or more segments; already canonical) with the expected canonical source known by construction; idempotence and the key of the JSON and YAML marshalling are checked too; phase 2: every string up to length 5 (quick) / 6 (thorough) over the alphabet {a,1,/,#,.,-,:,\\,@,_} for idempotence and marshalled key. distinct_nontrivial counts distinct (form, has ref, segment count) classes seen in a 1/64 sample",
 		map[string]any{"exhaustive": false},
 		[]string{"percent-encoded sources and refs with empty or dot-only components are outside the documented forms"})
 }
